@@ -49,42 +49,117 @@ theorem C14_pike_search_sound {N : NFA} {h : Bytes} (hna : Pike.anchored N = fal
 
 /-! #### lazy DFA (`dfa/lazy`: determinisation on the fly, transition memo with capacity, clears and give-up)
 
-The model `Cx.Dfa` is a transliteration of the search-relevant code (closure, move with break-at-match, start states,
-cache insert / clear-and-rebuild / give-up, acceleration, the 4x unrolled loop) and is replayed call by call against the
-real DFA in every run.  For look-free automata the memo is invisible and the answer is the reference's END, for every cache
-capacity (also one too small for any state), every clear limit and every history of earlier calls on the same cache. -/
+The model `Cx.Dfa` is a transliteration of the search-relevant code (ordered closure with look sets, look-behind context
+`lookHave` in states and cache keys, `determinize` with the look-ahead re-closure, move with break-at-match, end-of-input
+check, `matchesEmptyAt`, start states, cache insert / clear-and-reinsert / give-up, exact state acceleration, the 4x
+unrolled loop, the anchored loop with its anchored fallback) and is replayed call by call against the real DFA in every
+run.  The memo is invisible and the answer is the reference's END — for automata WITH look-around (`\A \z ^ $ \b \B`,
+multi-line or not) as well — for every cache capacity (also one too small for any state), every clear limit and every
+history of earlier calls of ANY of the four entry points on the same cache.
 
-/-- any sequence of `SearchAt`/`IsMatch`/`IsMatchAt` calls on one cache, then `SearchAt`: the code either hands over to the
-    NFA simulation or returns the end of the leftmost-first match — never a different answer.  Hypotheses are decidable
-    checks on the dumped automaton and its byte classes (`dfa hyps`, `dfa classcompat` in the driver). -/
-theorem C14_dfa_search_eq_reference_any_history {N : NFA} (hlf : Dfa.lookFreeB N = true) (hnr : Dfa.noRuneB N = true)
-    (hsd : Dfa.sparseDisjointB N = true) (hp : Dfa.prefixOKB N = true) {cfg : Dfa.Config} (hbrk : cfg.breakAtMatch = true)
+Hypotheses (all decidable, evaluated by `dfa hyps` / `dfa classcompat` on the dumped automaton and its real byte classes):
+`noRuneB` (the DFA ignores rune states; the compiler never emits them), `sparseDisjointB` (the DFA follows every sparse
+transition containing the byte, the reference the first), `prefixOKB` (the unanchored start is the compiler's `(?s:.)*?`
+prefix) or `anchoredHeadB` (always-anchored automaton: no prefix, the start state is `\\A`), `ClassSound` — implied by `classStepB`: bytes of
+one class agree on every byte range of the automaton AND are not told apart by its look-around (`\n` when it has
+`(?m)^`/`(?m)$`, word bytes when it has `\b`/`\B`).  `gaveUp` = the code hands over to the Pike VM (determinization
+limit, cache full with no clear left); it is excluded by `wfB` and `states ≤ DeterminizationLimit` for the uncached
+search (`Dfa.searchAtU_eq_bt'`). -/
+
+/-- any sequence of `SearchAt`/`SearchAtAnchored`/`IsMatch`/`IsMatchAt` calls on one cache, then `SearchAt`: the code
+    either hands over to the NFA simulation or returns the end of the leftmost-first match — never a different answer.
+    No restriction on look-around, on the clear limit or on the kind of the earlier calls. -/
+theorem C14_dfa_search_eq_reference_any_history {N : NFA} (hnr : Dfa.noRuneB N = true)
+    (hsd : Dfa.sparseDisjointB N = true) (hp : Dfa.prefixOKB N = true ∨ Dfa.anchoredHeadB N = true) {cfg : Dfa.Config} (hbrk : cfg.breakAtMatch = true)
     (hC : Dfa.ClassSound N cfg) (calls : List Dfa.Call) (hbs : ∀ k ∈ calls, Dfa.BytesOK k.hay)
-    (hks : ∀ k ∈ calls, k.isAnchored = false) {h : Bytes} (hb : Dfa.BytesOK h) {at_ : Nat} (hat : at_ ≤ h.size) :
+    {h : Bytes} (hb : Dfa.BytesOK h) {at_ : Nat} (hat : at_ ≤ h.size) :
     (Dfa.apiSearchAt N cfg (Dfa.runCalls N cfg calls) h at_).1 = .gaveUp ∨
     (Dfa.apiSearchAt N cfg (Dfa.runCalls N cfg calls) h at_).1 = .ok ((btSearchAt N h at_).map (·.2)) :=
-  Dfa.session_searchAt hlf hnr hsd hp hbrk hC calls hbs hks hb hat
+  Dfa.session_searchAt hnr hsd hp hbrk hC calls hbs hb hat
 
-theorem C14_dfa_isMatch_iff_any_history {N : NFA} (hlf : Dfa.lookFreeB N = true) (hnr : Dfa.noRuneB N = true)
-    (hsd : Dfa.sparseDisjointB N = true) (hp : Dfa.prefixOKB N = true) {cfg : Dfa.Config} (hbrk : cfg.breakAtMatch = true)
+theorem C14_dfa_isMatch_iff_any_history {N : NFA} (hnr : Dfa.noRuneB N = true)
+    (hsd : Dfa.sparseDisjointB N = true) (hp : Dfa.prefixOKB N = true ∨ Dfa.anchoredHeadB N = true) {cfg : Dfa.Config} (hbrk : cfg.breakAtMatch = true)
     (hC : Dfa.ClassSound N cfg) (calls : List Dfa.Call) (hbs : ∀ k ∈ calls, Dfa.BytesOK k.hay)
-    (hks : ∀ k ∈ calls, k.isAnchored = false) {h : Bytes} (hb : Dfa.BytesOK h) {at_ : Nat} (hat : at_ < h.size) :
+    {h : Bytes} (hb : Dfa.BytesOK h) {at_ : Nat} (hat : at_ ≤ h.size) :
     (Dfa.apiIsMatchAt N cfg (Dfa.runCalls N cfg calls) h at_).1 = .gaveUp ∨
     ∃ r, (Dfa.apiIsMatchAt N cfg (Dfa.runCalls N cfg calls) h at_).1 = .ok r ∧
       (r = true ↔ ∃ i j, at_ ≤ i ∧ i ≤ h.size ∧ Accepts N h i j) :=
-  Dfa.session_isMatchAt hlf hnr hsd hp hbrk hC calls hbs hks hb hat
+  Dfa.session_isMatchAt hnr hsd hp hbrk hC calls hbs hb hat
 
-/-- the statement is FALSE for the code outside those hypotheses; each witness is the model run on an NFA dumped from the
-    real compiler and was confirmed on the real DFA (they are the open C14-dfa-* findings):
-    byte classes that do not separate `\n` when the automaton has `(?m)^` ((?m)^a on "\n0a": end 3, reference none);
-    `SearchAtAnchored` after a cache clear (abc, 200-byte cache: none instead of 3);
-    state acceleration after anchored searches filled a row ([ab]*a[ab][ab]: end 7 instead of 3) -/
-theorem C14_dfa_deviations_partial :
-    ((Dfa.apiSearchAt Dfa.nfaCaretA Dfa.cfgCaretA Dfa.Cache.empty #[10, 48, 97] 0).1 = .ok (some 3) ∧
-      btSearchAt Dfa.nfaCaretA #[10, 48, 97] 0 = none) ∧
-    ((Dfa.apiSearchAtAnchored Dfa.nfaABC Dfa.cfg200 Dfa.Cache.empty #[97, 98, 99] 0).1 = .ok none ∧
-      Dfa.apiSearchAtAnchoredU Dfa.nfaABC Dfa.cfg200 #[97, 98, 99] 0 = .ok (some 3)) :=
-  ⟨⟨Dfa.class_unsound_visible.1, Dfa.class_unsound_visible.2.2⟩, Dfa.anchored_clear_visible⟩
+/-- `SearchAtAnchored` after any history, any clear limit: the anchored NFA fallback, or the end the priority DFS finds
+    first from `at` (`Pike.btFirst`; sound and complete for "some span starting at `at` is accepted":
+    `Pike.btFirst_sound`, `Pike.btFirst_complete`) -/
+theorem C14_dfa_anchored_eq_reference_any_history {N : NFA} (hnr : Dfa.noRuneB N = true)
+    (hsd : Dfa.sparseDisjointB N = true) {cfg : Dfa.Config} (hbrk : cfg.breakAtMatch = true)
+    (hC : Dfa.ClassSound N cfg) (calls : List Dfa.Call) (hbs : ∀ k ∈ calls, Dfa.BytesOK k.hay)
+    {h : Bytes} (hb : Dfa.BytesOK h) {at_ : Nat} (hat : at_ < h.size) :
+    (Dfa.apiSearchAtAnchored N cfg (Dfa.runCalls N cfg calls) h at_).1 = .gaveUp ∨
+    (Dfa.apiSearchAtAnchored N cfg (Dfa.runCalls N cfg calls) h at_).1 = .ok (Pike.btFirst N h at_ at_) :=
+  Dfa.session_searchAtAnchored hnr hsd hbrk hC calls hbs hb hat
+
+/-- (b) WITH LOOK-AROUND, the cache out of the way: the lazy DFA's search on state values (`determinize` recomputed for
+    every byte) reports exactly the end of the reference's leftmost-first match, where the reference evaluates every
+    assertion with `lookOK` on the whole haystack — for every automaton the decidable hypotheses hold for, whatever
+    look-around states it contains, at every start offset `at ≤ len` (the `at = len` case is `matchesEmptyAt`). -/
+theorem C14_dfa_look_eq_reference {N : NFA} (hwf : Dfa.wfB N = true) (hnr : Dfa.noRuneB N = true)
+    (hsd : Dfa.sparseDisjointB N = true) (hp : Dfa.prefixOKB N = true ∨ Dfa.anchoredHeadB N = true) (cfg : Dfa.Config) (hbrk : cfg.breakAtMatch = true)
+    (hl : N.states.size ≤ cfg.detLimit) {h : Bytes} (hb : Dfa.BytesOK h) {at_ : Nat} (hat : at_ ≤ h.size) :
+    Dfa.apiSearchAtU N cfg h at_ = .ok ((btSearchAt N h at_).map (·.2)) := by
+  by_cases hlt : at_ < h.size
+  · unfold Dfa.apiSearchAtU
+    rw [if_neg (by omega), if_neg (by omega)]
+    exact Dfa.searchAtU_eq_bt' hwf hnr hsd hp cfg hbrk hl hb hat
+  · have : at_ = h.size := by omega
+    subst this
+    exact Dfa.apiSearchAtU_end N cfg h
+
+/-- the byte classes make the memo sound when they respect the byte ranges and the look-around of the automaton
+    (`classStepB`, decided on the real class map by the harness; `classCompatB` is the quadratic variant) -/
+theorem C14_dfa_classSound_of_check {N : NFA} (cfg : Dfa.Config) (hc : Dfa.classStepB N cfg.cls = true) :
+    Dfa.ClassSound N cfg := Dfa.classSound_of_compat cfg (Dfa.classCompat_of_step hc)
+
+/-- closed instances with look-around, every hypothesis decided: `(?m)^a` and `x*\b` with the byte classes the compiler
+    computes for them, ANY capacity, ANY clear limit, ANY history -/
+theorem C14_dfa_look_closed_instances (capacity maxClears : Nat) :
+    (∀ (calls : List Dfa.Call), (∀ k ∈ calls, Dfa.BytesOK k.hay) → ∀ {h : Bytes}, Dfa.BytesOK h → ∀ {at_ : Nat}, at_ ≤ h.size →
+      let cfg : Dfa.Config := { capacity := capacity, maxClears := maxClears, stride := 5, cls := Dfa.clsCaretA }
+      (Dfa.apiSearchAt Dfa.nfaCaretA cfg (Dfa.runCalls Dfa.nfaCaretA cfg calls) h at_).1 = .gaveUp ∨
+      (Dfa.apiSearchAt Dfa.nfaCaretA cfg (Dfa.runCalls Dfa.nfaCaretA cfg calls) h at_).1 =
+        .ok ((btSearchAt Dfa.nfaCaretA h at_).map (·.2))) ∧
+    (∀ (calls : List Dfa.Call), (∀ k ∈ calls, Dfa.BytesOK k.hay) → ∀ {h : Bytes}, Dfa.BytesOK h → ∀ {at_ : Nat}, at_ ≤ h.size →
+      let cfg : Dfa.Config := { capacity := capacity, maxClears := maxClears, stride := 11, cls := Dfa.clsXsWB }
+      (Dfa.apiSearchAt Dfa.nfaXsWB cfg (Dfa.runCalls Dfa.nfaXsWB cfg calls) h at_).1 = .gaveUp ∨
+      (Dfa.apiSearchAt Dfa.nfaXsWB cfg (Dfa.runCalls Dfa.nfaXsWB cfg calls) h at_).1 =
+        .ok ((btSearchAt Dfa.nfaXsWB h at_).map (·.2))) :=
+  ⟨fun calls hbs _ hb _ hat => Dfa.session_caretA capacity maxClears calls hbs hb hat,
+   fun calls hbs _ hb _ hat => Dfa.session_xsWB capacity maxClears calls hbs hb hat⟩
+
+/-- THE FORMER DEVIATIONS, on the same dumped automata, haystacks and cache configurations (each was confirmed on the real
+    DFA of the previous tree; the model of this tree — which the harness replays against the real code — now agrees with
+    the reference on all of them):
+    `(?m)^a` on "\n0a" (was end 3): none, with the byte classes of this tree; the old class map is refused by `classStepB`;
+    `^` on "a" at 1 (was 1): none;  `x*\b` on "a\nx" at 2 (was 2): 3;  `a|\B` on "aa" at 1 (was 1): 2;
+    `SearchAtAnchored` of `abc` with a 200-byte cache and 2 clears (was none): 3;
+    `[ab]*a[ab][ab]` on "abbab0bb" after four anchored searches on the same cache (was 7): 3;
+    `\B` on "  a", cached `IsMatch` (was false): true. -/
+theorem C14_dfa_deviations_fixed :
+    ((Dfa.apiSearchAt Dfa.nfaCaretA Dfa.cfgCaretA Dfa.Cache.empty #[10, 48, 97] 0).1 = .ok none ∧
+      btSearchAt Dfa.nfaCaretA #[10, 48, 97] 0 = none ∧
+      Dfa.classStepB Dfa.nfaCaretA (fun b => if b < 97 then 0 else if b = 97 then 1 else 2) = false) ∧
+    (Dfa.apiSearchAtU Dfa.nfaCaret Dfa.Config.plain #[97] 1 = .ok none ∧ btSearchAt Dfa.nfaCaret #[97] 1 = none) ∧
+    (Dfa.apiSearchAtU Dfa.nfaXsWB Dfa.Config.plain #[97, 10, 120] 2 = .ok (some 3) ∧
+      btSearchAt Dfa.nfaXsWB #[97, 10, 120] 2 = some (2, 3)) ∧
+    (Dfa.apiSearchAtU Dfa.nfaAorNotWB Dfa.Config.plain #[97, 97] 1 = .ok (some 2) ∧
+      btSearchAt Dfa.nfaAorNotWB #[97, 97] 1 = some (1, 2)) ∧
+    ((Dfa.apiSearchAtAnchored Dfa.nfaABC Dfa.cfg200 Dfa.Cache.empty #[97, 98, 99] 0).1 = .ok (some 3) ∧
+      Dfa.apiSearchAtAnchoredU Dfa.nfaABC Dfa.cfg200 #[97, 98, 99] 0 = .ok (some 3)) ∧
+    ((Dfa.apiSearchAt Dfa.nfaABs Dfa.cfgABs (Dfa.runCalls Dfa.nfaABs Dfa.cfgABs
+        [.searchAtAnchored #[97, 98, 97] 0, .searchAtAnchored #[97, 98, 98] 0, .searchAtAnchored #[97, 98, 99] 0,
+         .searchAtAnchored #[97, 98, 48] 0]) #[97, 98, 98, 97, 98, 48, 98, 98] 0).1 = .ok (some 3) ∧
+      btSearchAt Dfa.nfaABs #[97, 98, 98, 97, 98, 48, 98, 98] 0 = some (0, 3)) ∧
+    ((Dfa.apiIsMatch Dfa.nfaNotWB Dfa.Config.plain Dfa.Cache.empty #[32, 32, 97]).1 = .ok true) :=
+  ⟨⟨Dfa.class_fixed.1, Dfa.class_fixed.2.2, Dfa.old_classes_rejected⟩, Dfa.empty_at_end_fixed, Dfa.wb_precheck_fixed,
+   Dfa.wb_precheck_fixed2, Dfa.anchored_clear_fixed, ⟨Dfa.accel_fixed.1, Dfa.accel_fixed.2.2⟩, Dfa.wb_flags_fixed.1⟩
 
 /- non-vacuity: the NFA of `a|ab` (split, two byte paths) on "ab": first alternative wins -/
 def exN : NFA := { states := #[.split 1 2, .byteRange 97 97 5, .byteRange 97 97 3, .byteRange 98 98 5, .fail, .mtch],
